@@ -224,7 +224,10 @@ def write_evidence(prop, tier, lean, cov, assumptions, wall, violations):
     ev = dict(property_id=prop, tier=tier, seed=seed(), level="proof", coverage=coverage,
               assumptions=assumptions, wall_s=round(wall, 2), violations=violations)
     # evidence under /verif/evidence only describes /repo itself; runs against a scratch copy keep theirs with the build
-    evdir = os.path.join(VERIF, "evidence") if os.path.realpath(REPO) == "/repo" else os.path.join(BUILD, "evidence")
+    # evidence is what THE registered check wrote about /repo itself: a run against a scratch copy of the repository, with
+    # a private build directory, or of the coverage measurement keeps its evidence with its build
+    own = os.path.realpath(REPO) == "/repo" and os.path.realpath(BUILD) == os.path.realpath(os.path.join(VERIF, "build")) and os.environ.get("VERIF_COVERAGE") != "1"
+    evdir = os.path.join(VERIF, "evidence") if own else os.path.join(BUILD, "evidence")
     os.makedirs(evdir, exist_ok=True)
     with open(os.path.join(evdir, prop + ".json"), "w") as f:
         json.dump(ev, f, indent=1, default=str)
